@@ -123,6 +123,14 @@ COMPOSITES = {
     "dynlen-field": {"params": [SID, V("f", dict(complex="dynlenfield", count_dop=U8, offset=1,
                                                  structure=dict(params=[V("x", U8), V("y", U8)]))),
                                 TAIL], "counts": [0, 1, 2, 3]},
+    # an empty field as the last object: the bytes between the counter and OFFSET still exist
+    "dynlen-field-offset-last": {"params": [SID, V("f", dict(
+        complex="dynlenfield", count_dop=U8, offset=3,
+        structure=dict(params=[V("x", U8)])))], "counts": [0, 1, 2]},
+    # a signed item counter
+    "dynlen-field-signed-count": {"params": [SID, V("f", dict(
+        complex="dynlenfield", count_dop=S8, offset=1,
+        structure=dict(params=[V("x", U8)]))), TAIL], "counts": [0, 1, 2]},
     "dynlen-field-offset2": {"params": [SID, V("pre", U8), V("f", dict(
         complex="dynlenfield", count_dop=U4, count_bitpos=4, offset=2,
         structure=dict(params=[V("x", U16)]))), TAIL], "counts": [0, 1, 2, 15, 16]},
@@ -225,6 +233,18 @@ COMPOSITES.update({
                                 dict(name="first", dtcs=[1], params=[V("temp", S8)]),
                                 dict(name="second", dtcs=[0x500, 0xFFFFFF],
                                      params=[V("volt", U8), V("amp", U8)])])), TAIL]},
+    # environment data with only the ALL-VALUE part applicable (DTC 7 has no data of its own),
+    # followed by a structure: unknown keys in the structure must still be rejected
+    "env-data-then-structure": {"params": [SID, V("d", dict(dt="A_UINT32", bl=8)),
+                                           V("env", dict(complex="envdatadesc", param="d", datas=[
+                                               dict(name="common", all=True, params=[V("mileage", U16)]),
+                                               dict(name="one", dtcs=[1], params=[V("x", U8)])])),
+                                           V("st", S([V("a", U8), V("b", U8)])), TAIL]},
+    # the ENV-DATA elements are read from their ODX text
+    "env-data-from-xml": {"params": [SID, V("d", dict(dt="A_UINT32", bl=8)),
+                                     V("env", dict(complex="envdatadesc", param="d", xml=True, datas=[
+                                         dict(name="common", all=True, params=[V("mileage", U16)]),
+                                         dict(name="one", dtcs=[1, 2], params=[V("x", U8)])])), TAIL]},
     "env-data-no-common": {"params": [SID, V("d", dict(dt="A_UINT32", bl=8)),
                                       V("env", dict(complex="envdatadesc", param="d", datas=[
                                           dict(name="one", dtcs=[1, 2], params=[V("x", U8)]),
@@ -683,7 +703,11 @@ def require_same(sx, got, want, label, path=""):
 # harness
 # ---------------------------------------------------------------------------
 # descriptions used by single harnesses only (not part of the common catalogue)
+TBL_EMPTY_ROW = dict(TBL, name="tbl_e", rows=TBL["rows"] + [{"name": "r9", "key": 9}])
 EXTRA_REQUESTS = {
+    # a table row that references neither a DOP nor a structure (decoding only)
+    "table-empty-row": {"params": [SID, dict(kind="tablekey", name="tk", id="TK9", table=TBL_EMPTY_ROW),
+                                   dict(kind="tablestruct", name="ts", key="TK9"), TAIL]},
     # the end-marker DOP does not accept every internal value (a text table over 128..255):
     # probing an item whose first byte is below 128 is a decode error in strict mode and a warning
     # in lenient mode; the field is the last object and ends with the PDU
@@ -948,6 +972,42 @@ def run_badselector(sx, cfg, env):
         sx.require(bool(same), "accepted-selector-comes-back")
 
 
+UNKNOWN_NESTED = {
+    # composite -> (path to a nested dict of the generated values)
+    "structure": ["st"], "env-data-then-structure": ["st"], "static-field": ["f", 0],
+    "structure-then-positioned": ["st"], "nested-bytesize": ["outer"] if False else None,
+}
+
+
+def run_unknownnested(sx, cfg, env):
+    """C04: a value for a parameter that does not exist inside a nested structure / field item is
+    rejected like one at the top level, whatever precedes the nested object"""
+    from odxtools.exceptions import OdxError
+    obj, spec = env["obj"], env["spec"]
+    shape = cfg["shape"]
+    vals = gen_params(sx, spec["params"], "", shape, "C01")
+    if cfg["name"] == "env-data-then-structure":
+        sx.assume(vals["d"] == cfg["dtc"])  # 7: only the ALL-VALUE data applies; 1: its own too
+    node = vals
+    for k in UNKNOWN_NESTED[cfg["name"]]:
+        node = node[k]
+    node["no_such_parameter"] = 1
+    try:
+        pdu = obj.encode(**vals)
+    except OdxError:
+        sx.cover("rejected")
+        sx.require(True, "unknown-nested-parameter-is-rejected")
+        return
+    except Exception as e:  # noqa: BLE001
+        sx.observe("exception", type(e).__name__)
+        sx.fail("rejection-uses-the-library-error-type")
+        return
+    sx.observe("pdu", core.frozen(pdu))
+    sx.fail("unknown-nested-parameter-is-rejected")
+
+
+UNKNOWNNESTED_HARNESS = {"build": build_composite, "run": run_unknownnested, "width": 80,
+                         "must_cover": ["rejected"]}
 BADSELECTOR_HARNESS = {"build": build_composite, "run": run_badselector, "width": 80,
                        "must_cover": ["rejected"]}
 COMPOSITE_HARNESS = {
